@@ -5,7 +5,7 @@
    grant of that privilege matches.  PARTIAL: token validation (jsonwebtoken) is trusted; "no
    request is served before a valid token" and the per-request table are validated on a live
    session by the session engine, not proved here. *)
-From WB Require Import Base.Str Base.Json Model.Key Model.Match Model.Core Model.Codec Model.Auth Model.Session Model.Rest Proofs.AuthFacts Proofs.SessionFacts Proofs.RestFacts.
+From WB Require Import Base.Str Base.Json Model.Key Model.Match Model.Core Model.Codec Model.Auth Model.Session Model.Rest Proofs.AuthFacts Proofs.SessionFacts Proofs.RestFacts Proofs.WorldCore Proofs.WorldAuth.
 
 Theorem C15_sound_doc :
   forall g r k, wf_pat g = true -> pm g r = true -> doc_match r k = true -> doc_match g k = true.
@@ -62,6 +62,38 @@ Theorem C15_denied_is_noop :
     handle w sn m = (w, [(sn, SErr (tid_of m) E_Unauthorized [])], Continue).
 Proof. exact denied_is_noop. Qed.
 Print Assumptions C15_denied_is_noop.
+
+(* at the level of the sockets, over histories (Proofs/WorldAuth.v).  The authorization table leaves three request kinds
+   unchecked (C15_table_total: sPub, unsubscribe, unsubscribeLs).  They find nothing to act on: with authorization
+   required, a session that has presented no valid token owns no subscription of either kind and no publish stream
+   ([WInv], kept by every event: C15_tokenless_sessions_own_nothing), so after ANY history of events a line from such a
+   session -- of any kind -- is answered with a refusal (an Err; the Ack 0 of a protocol switch) or ends the session, and
+   leaves the whole core exactly as it was.  [wf_hist]: a connection is opened under a session number not in use. *)
+Theorem C15_tokenless_sessions_own_nothing :
+  forall w e, WInv w -> wf_ev w e -> ev_safe w e -> WInv (fst (sstep w e)).
+Proof. exact sstep_WInv. Qed.
+Print Assumptions C15_tokenless_sessions_own_nothing.
+
+Theorem C15_no_token_no_service :
+  forall es sn s m, Forall ev_ok es -> wf_hist (world_init true) es ->
+    let w := wfinal (world_init true) es in
+    lookup_n sn (w_sess w) = Some s -> ss_open s = true -> ss_claims s = None ->
+    let '(w1, out, v) := handle w sn m in
+    w_core w1 = w_core w /\ Forall (fun x => fst x = sn /\ is_refusal (snd x)) out.
+Proof. exact no_token_no_service. Qed.
+Print Assumptions C15_no_token_no_service.
+
+Example C15_no_token_nonvacuous :
+  let all := Claims [[35]%N] [[35]%N] [[35]%N] in
+  let es := [SOpen 0; SOpen 1; SAuth 1 (Some all); SMsg 1 (MSubscribe 1 [97]%N false None); SMsg 1 (MSet 2 [97]%N JNull); SMsg 0 (MUnsubscribe 1)]%N in
+  (Forall ev_ok es /\ wf_hist (world_init true) es) /\
+  let w := wfinal (world_init true) es in
+  (exists s, lookup_n 0%N (w_sess w) = Some s /\ ss_open s = true /\ ss_claims s = None) /\
+  snd (fst (handle w 0%N (MSPub 1%N JNull))) = [(0, SErr 1 E_NoPubStream [])]%N /\
+  snd (fst (handle w 0%N (MUnsubscribe 1%N))) = [(0, SErr 1 E_NotSubscribed [])]%N /\
+  snd (handle w 0%N (MGet 3%N [97]%N)) = Close /\
+  snd (fst (handle w 1%N (MGet 3%N [97]%N))) = [(1, SState 3 (SValue JNull))]%N.
+Proof. exact no_token_demo. Qed.
 
 (* the same for the REST front end (Model/Rest.v: axum/auth.rs bearer_auth + the handlers of axum/mod.rs) *)
 Theorem C15_rest_no_service_before_token :
